@@ -114,7 +114,7 @@ pub fn op_strategy(f: Flavour, lifecycle_w: u32) -> BoxedStrategy<Op> {
 }
 
 pub fn scenario_strategy(flavours: Vec<Flavour>, lifecycle_w: u32, max_ops: usize) -> BoxedStrategy<Scenario> {
-  let caps = prop_oneof![4 => Just(1usize), 3 => Just(2usize), 2 => Just(3usize), 1 => Just(4usize), 1 => Just(16usize)];
+  let caps = prop_oneof![4 => Just(1usize), 3 => Just(2usize), 3 => Just(3usize), 1 => Just(4usize), 2 => Just(5usize), 1 => Just(16usize)];
   (proptest::sample::select(flavours), proptest::bool::weighted(0.85), caps)
     .prop_flat_map(move |(f, a, cap)| proptest::collection::vec(op_strategy(f, lifecycle_w), 1..max_ops).prop_map(move |ops| Scenario { flavour: f, async_start: a, cap, ops }))
     .boxed()
@@ -614,7 +614,7 @@ impl<'a> Run<'a> {
     }
     if caps.exclusive || single_side || wants_stream {
       self.cancel_tasks_of(is_tx, hid)?;
-    } else if self.tasks_of(is_tx, hid).len() >= 3 {
+    } else if self.tasks_of(is_tx, hid).len() >= 4 {
       return Ok(());
     }
     // known finding F06 excluded by construction (while open): no second async sender is
@@ -1354,6 +1354,18 @@ fn run_ops(s: &Scenario, reg: &Arc<Registry>, tx: &mut Vec<H<dyn Tx>>, rx: &mut 
     let dd = reg.double_drops();
     if !dd.is_empty() {
       return Err(Failure::new("C09", format!("E2/{}/double_drop", s.flavour.name()), format!("after step {i} {op:?}: value(s) {:?} dropped more than once", dd)));
+    }
+    // C03: "len() never exceeds capacity()" — observed on every live handle after every step
+    if s.flavour.bounded() {
+      let mut obs: Vec<(Option<usize>, Option<usize>)> = run.tx.iter().map(|h| (h.h.len(), h.h.capacity())).collect();
+      obs.extend(run.rx.iter().map(|h| (h.h.len(), h.h.capacity())));
+      for (l, c) in obs {
+        if let (Some(l), Some(c)) = (l, c) {
+          if l > c {
+            return Err(Failure::new("C03", format!("E2/{}/len/len_exceeds_capacity", s.flavour.name()), format!("after step {i} {op:?}: len() {l} > capacity() {c}")));
+          }
+        }
+      }
     }
   }
   run.finale().map_err(|mut f| {
